@@ -242,33 +242,95 @@ func checkC18(w *World, r *Report) {
 					}
 				}
 			}
-			for _, l := range rangeLoops(bb) {
-				if l.Over == dists && dists != nil {
-					okLoop = loopEarlyExit(l) == nil && loopBodyMustPass(l, func(b *ssa.BasicBlock) bool {
-						for _, in := range b.Instrs {
-							if c, ok := in.(*ssa.Call); ok && strings.HasSuffix(callName(c.Common()), "EventManager.EmitTypedEvent") {
-								return true
+			analyse := func(fn *ssa.Function, dists, burn ssa.Value) (bool, bool) {
+				okL, okB := false, false
+				for _, l := range rangeLoops(fn) {
+					if l.Over == dists && dists != nil {
+						okL = loopEarlyExit(l) == nil && loopBodyMustPass(l, func(b *ssa.BasicBlock) bool {
+							for _, in := range b.Instrs {
+								if c, ok := in.(*ssa.Call); ok && strings.HasSuffix(callName(c.Common()), "EventManager.EmitTypedEvent") {
+									return true
+								}
 							}
-						}
-						return false
-					})
+							return false
+						})
+					}
 				}
-			}
-			// burn: emitted on the non-nil edge, and nothing else decides
-			if burn != nil {
-				for _, s := range cg.Sites[bb] {
-					if cg.Atom(s) == EventEmit {
-						a := s.Args()
-						if mi, ok := a[0].(*ssa.MakeInterface); ok && mi.X == burn {
-							edges := NilEdges(bb, map[ssa.Value]bool{burn: true}, false)
-							// the emit block is exactly the non-nil successor (no further condition)
-							for _, e := range edges {
-								if e.To() == s.Instr.Block() || e.To().Dominates(s.Instr.Block()) && len(e.To().Succs) <= 1 {
-									okBurn = true
+				// burn: emitted on the non-nil edge, and nothing else decides
+				if burn != nil {
+					for _, s := range cg.Sites[fn] {
+						if cg.Atom(s) == EventEmit {
+							a := s.Args()
+							if mi, ok := a[0].(*ssa.MakeInterface); ok && mi.X == burn {
+								edges := NilEdges(fn, map[ssa.Value]bool{burn: true}, false)
+								// the emit block is exactly the non-nil successor (no further condition)
+								for _, e := range edges {
+									if e.To() == s.Instr.Block() || e.To().Dominates(s.Instr.Block()) && len(e.To().Succs) <= 1 {
+										okB = true
+									}
 								}
 							}
 						}
 					}
+				}
+				return okL, okB
+			}
+			okLoop, okBurn = analyse(bb, dists, burn)
+			// the emission may be a helper that is handed the distributions and the burn of this sub-distributor,
+			// called unconditionally once they are known
+			if !okLoop || !okBurn {
+				for _, cs := range cg.Sites[bb] {
+					h := cs.Common().StaticCallee()
+					if h == nil || h.Blocks == nil || !w.isProdFunc(h) || cs.Common().IsInvoke() {
+						continue
+					}
+					var dP, bP ssa.Value
+					for i, a := range cs.Common().Args {
+						if i >= len(h.Params) {
+							continue
+						}
+						if a == dists && dists != nil {
+							dP = h.Params[i]
+						}
+						if a == burn && burn != nil {
+							bP = h.Params[i]
+						}
+					}
+					if dP == nil {
+						continue
+					}
+					// unconditional: the call sits in the block of StartDistributionProcess or in one that it dominates
+					// and that every path back to the loop header passes
+					uncond := cs.Instr.Block() == sdp.Block()
+					if !uncond && sdp.Block().Dominates(cs.Instr.Block()) {
+						uncond = true
+						for _, l := range rangeLoops(bb) {
+							if loopBlocks(l.Header)[sdp.Block()] {
+								// every path from the sdp block to the header passes the call block
+								seen := map[*ssa.BasicBlock]bool{}
+								var walk func(b *ssa.BasicBlock)
+								walk = func(b *ssa.BasicBlock) {
+									if seen[b] || b == cs.Instr.Block() {
+										return
+									}
+									seen[b] = true
+									for _, sc := range b.Succs {
+										if sc == l.Header {
+											uncond = false
+										}
+										walk(sc)
+									}
+								}
+								walk(sdp.Block())
+							}
+						}
+					}
+					if !uncond {
+						continue
+					}
+					l2, b2 := analyse(h, dP, bP)
+					okLoop = okLoop || l2
+					okBurn = okBurn || b2
 				}
 			}
 		}
